@@ -1328,7 +1328,8 @@ CHECK = Check(
         "standalone servers (layer standalone, schedule randomised not owned); layer in-loop: server_close() of the standalone object called "
         "from a callback in the server's own event-loop thread (must return or raise, never deadlock); layer stop-under-load: shutdown / cancelled serve_forever / "
         "cancelled handler scope against one client that keeps the receive buffers filled (must take effect within the data already received); layer real-startup-race: "
-        "close/shutdown/cancel issued 0-30 loop iterations into server_activate()/serve_forever() of a TCP or UDP server on 1-4 real loopback addresses (no socket descriptor may outlive server_close()); non-trivial = at least two lifecycle operations overlap "
+        "close/shutdown/cancel issued 0-30 loop iterations into server_activate()/serve_forever() of a TCP or UDP server on 1-4 real loopback addresses (no socket descriptor may outlive server_close()); layer real-accept-race: shutdown / cancelled serve_forever 0-12 loop iterations after 1-3 real peers connected "
+        "(every connection handed to the library is closed by it, not by a finalizer); non-trivial = at least two lifecycle operations overlap "
         "in time, or a serve_forever starts after a shutdown returned; distinct = sha1 of the canonical case JSON"
     ),
     layers=[
@@ -1339,6 +1340,7 @@ CHECK = Check(
         Layer("in-loop", st_in_loop_case, run_in_loop_case, {"quick": 6, "thorough": 12}, shards=1, case_timeout_s=60.0),
         c18_load.LAYER,
         c18_startup.LAYER,
+        c18_startup.ACCEPT_LAYER,
     ],
     assumptions=[
         "async layer: listeners are in-memory objects handed out by a backend subclass; everything above them (server, task groups, cancel scopes, locks) is the unmodified library on the real asyncio backend, on a virtual clock",
